@@ -333,3 +333,105 @@ func checkDecryptHelper(c *Ctx, prop string) {
 	_ = p
 	_ = core.RootPath
 }
+
+// checkPacketDelivery: a claim that arrived in a packet and decoded is handed
+// to its handler on every path; only a failed decode or, for alive claims, the
+// source / advertised address gate (C18) may drop it. A filter on the claim's
+// contents in front of the handler hides accusations from the refutation logic
+// and departures / failures from the membership table.
+func checkPacketDelivery(c *Ctx, prop string) {
+	rule := "every suspect / alive / dead claim that decoded is handed to its handler on every path; the only things that may drop one are a failed decode and (alive) the source / advertised address gates"
+	c.Rule(rule)
+	n := 0
+	for _, h := range []struct{ name, callee string }{
+		{"Memberlist.handleSuspect", "CALL:Memberlist.suspectNode"},
+		{"Memberlist.handleAlive", "CALL:Memberlist.aliveNode"},
+		{"Memberlist.handleDead", "CALL:Memberlist.deadNode"},
+	} {
+		fn := c.MustFunc(h.name)
+		x := c.flow(fn, map[string]string{})
+		for _, ex := range x.Exits {
+			if ex.Kind == "panic" {
+				continue
+			}
+			n++
+			if ex.Seen[h.callee] > 0 {
+				continue
+			}
+			consent := ""
+			for k, v := range ex.Cube {
+				u := untok(k)
+				if v != "F" || !strings.HasSuffix(u, "==nil") {
+					continue
+				}
+				switch {
+				case strings.Contains(u, "decode("):
+					consent = "decode failed"
+				case h.name == "Memberlist.handleAlive" && (strings.Contains(u, "ensureCanConnect(") || strings.Contains(u, "IPAllowed(")):
+					consent = "address gate"
+				}
+			}
+			c.Check(prop+"/packet/delivers-all/"+h.name, rule, ex.Pos, consent != "",
+				fmt.Sprintf("exit at %s without %s although the claim decoded and passed the address gates {%s}", c.P.Pos(ex.Pos), strings.TrimPrefix(h.callee, "CALL:"), gea.CubeString(ex.Cube)))
+		}
+	}
+	c.Floor("exits of the packet claim handlers", n, 6)
+}
+
+var ackEncRe = regexp.MustCompile(`encode\(ackRespMsg,&([^,]+),`)
+
+// checkStreamPingAnswer: the TCP fallback ping is answered under the same rule
+// as the packet ping - only when it is addressed to this node (or to nobody),
+// and with the ping's own sequence number. A node that acknowledges a fallback
+// ping meant for another name keeps a crashed member whose address it took
+// over alive in every prober's view.
+func checkStreamPingAnswer(c *Ctx, prop string) {
+	rule := "the stream (TCP fallback) ping is acknowledged only when it names this node or nobody, with the ping's own sequence number"
+	c.Rule(rule)
+	fn := c.MustFunc("Memberlist.handleConn")
+	x := c.flow(fn, map[string]string{})
+	n := 0
+	for _, e := range x.Effects {
+		if e.Class != "CALL:Memberlist.rawSendMsgStream" {
+			continue
+		}
+		m := ackEncRe.FindStringSubmatch(untok(e.Detail["arg1"]))
+		if m == nil {
+			continue
+		}
+		n++
+		forUs, base := false, ""
+		for k, v := range e.Cube {
+			u := untok(k)
+			if !strings.HasPrefix(u, "eq(") || !strings.Contains(u, ".Node") {
+				continue
+			}
+			if v == "T" && (strings.Contains(u, `eq("",`) || strings.Contains(u, "m.config.Name")) {
+				forUs = true
+				if i := strings.LastIndex(u, ","); i >= 0 {
+					base = strings.TrimSuffix(strings.TrimSuffix(u[i+1:], ")"), ".Node")
+					base = strings.TrimSuffix(base, "~")
+				}
+			}
+		}
+		c.Check(prop+"/stream-ping/addressed-to-us", rule, e.Pos, forUs, "ack on the stream reachable without the ping naming this node or nobody {"+gea.CubeString(e.Cube)+"}")
+		if forUs {
+			seq := strings.ReplaceAll(untok(e.Store[m[1]+".SeqNo"].S), "~", "")
+			if seq == "" {
+				// the ack is built as one composite literal: positional (SeqNo first) or keyed
+				lit := strings.ReplaceAll(untok(e.Store[m[1]].S), "~", "")
+				if k := strings.Index(lit, "{"); k >= 0 {
+					body := lit[k+1:]
+					if q := strings.Index(body, "SeqNo:"); q >= 0 {
+						body = body[q+len("SeqNo:"):]
+					}
+					if q := strings.IndexAny(body, ",}"); q >= 0 {
+						seq = body[:q]
+					}
+				}
+			}
+			c.Check(prop+"/stream-ping/own-seqno", rule, e.Pos, seq == strings.ReplaceAll(base, "~", "")+".SeqNo", "the stream ack carries "+seq+", not the ping's sequence number")
+		}
+	}
+	c.Floor("stream ack sends", n, 1)
+}
